@@ -361,6 +361,9 @@ def linform(e, sym):
     cc = checked(s)
     if cc is not None and s.k != "bin" and cc[0] in ("Add", "Sub", "Mul"):
         s = Expr("bin", [cc[1], cc[2]], op=cc[0])
+    elif s.k == "call" and len(s.a) == 2 and "num::" in s.x["path"] and s.x["path"].rsplit("::", 1)[-1] in ("checked_add", "checked_sub", "checked_mul"):
+        # `a.checked_add(b)?` in an integer position: strip() let the call stand for its Some payload
+        s = Expr("bin", [s.a[0], s.a[1]], op={"checked_add": "Add", "checked_sub": "Sub", "checked_mul": "Mul"}[s.x["path"].rsplit("::", 1)[-1]])
     if s.k == "field" and s.x["name"] == "0" and s.a[0].k == "bin":
         s = s.a[0]
     if s.k == "phi":
@@ -396,13 +399,25 @@ def lin_str(f):
     return "+".join(parts) if parts else "0"
 
 
-def entry_frame_read(F):
-    """symbolic layout read by Block::entry_at: s = start offset, n1/n2 = bytes consumed by the two
-    varint decodes, k/v = the decoded lengths"""
-    b = F.body(A("block_entry_at"))
+def _payload_slice(e):
+    """(bounds aggregate, call site) when e denotes payload[range] — written `&payload[range]` or
+    `payload.get(range)?` (the checked spelling: same region, `None` when it does not fit) — else None"""
+    s = e.strip()
+    g = unwrap_payload(s, "Some")
+    if g is not None:
+        s = g.strip()
+        want = "::get"
+    else:
+        want = "::index"
+    if s.k == "call" and s.x["path"].endswith(want) and len(s.a) == 2 and s.a[1].k == "agg" and is_call(s.a[0], "Block::payload"):
+        return s.a[1], s.x.get("site")
+    return None
+
+
+def _entry_syms(b):
     dec = dom_order(b, [s for s, c, t in calls(b, A("varint_decode"))])
     if len(dec) != 2:
-        return {"error": f"{len(dec)} varint decodes"}
+        return None, dec
     names = {(dec[0], False): "n1", (dec[0], True): "k", (dec[1], False): "n2", (dec[1], True): "v"}
 
     def sym(x):
@@ -411,23 +426,116 @@ def entry_frame_read(F):
         if x.k == "call" and x.x.get("site") in dec:
             return names[(x.x["site"], "out" in x.x)]
         return None
+    return sym, dec
 
+
+def entry_frame_read(F):
+    """symbolic layout read by Block::entry_at: s = start offset, n1/n2 = bytes consumed by the two
+    varint decodes, k/v = the decoded lengths"""
+    b = F.body(A("block_entry_at"))
+    sym, dec = _entry_syms(b)
+    if sym is None:
+        return {"error": f"{len(dec)} varint decodes"}
     out = {}
     for i, d in enumerate(dec):
-        a = b.arg_exprs(d)[0].strip()
-        r = a.a[1] if (a.k == "call" and a.x["path"].endswith("::index") and a.a[1].k == "agg") else None
+        ps = _payload_slice(b.arg_exprs(d)[0])
+        r = ps[0] if ps else None
         out[f"decode{i+1}_from"] = lin_str(linform(r.a[0], sym)) if r is not None and (r.x.get("adt") or "").endswith("RangeFrom") else "?"
-        out[f"decode{i+1}_on_payload"] = a.k == "call" and is_call(a.a[0], "Block::payload")
-    rng = dom_order(b, [s for s, c, t in calls(b, "Index<I> for [T]>::index") if b.arg_exprs(s)[1].k == "agg" and (b.arg_exprs(s)[1].x.get("adt") or "").endswith("ops::Range")])
-    for nm, s in zip(("key", "val"), rng):
-        r = b.arg_exprs(s)[1]
+        out[f"decode{i+1}_on_payload"] = ps is not None
+    rng = []
+    for s_, c, t in b.calls():
+        n = callee_name(c)
+        if not (n.endswith("Index<I> for [T]>::index") or n.endswith("slice::<impl [T]>::get")):
+            continue
+        a = b.arg_exprs(s_)
+        if len(a) == 2 and a[1].k == "agg" and (a[1].x.get("adt") or "").endswith("ops::Range") and is_call(a[0], "Block::payload"):
+            rng.append(s_)
+    rng = dom_order(b, rng)
+    for nm, s_ in zip(("key", "val"), rng):
+        r = b.arg_exprs(s_)[1]
         out[nm] = (lin_str(linform(r.a[0], sym)), lin_str(linform(r.a[1], sym)))
-    rets = [e for e in (b.expr_at_return().a if b.expr_at_return().k == "phi" else [b.expr_at_return()]) if e.k == "agg" and e.x.get("variant") == "Some"]
+    rets = [e for e in flat_alts(b.expr_at_return()) if e.k == "agg" and e.x.get("variant") == "Some"]
     if len(rets) == 1:
         tup = rets[0].a[0]
         out["returns_next"] = lin_str(linform(tup.a[2], sym)) if tup.k == "agg" and len(tup.a) == 3 else "?"
         out["returns_key_val"] = [any(x.k == "call" and x.x.get("site") == rs for x in comp.walk()) for comp, rs in zip(tup.a[:2], rng)] if tup.k == "agg" else "?"
-    # guard: start_offset >= payload.len() -> None
+    return out
+
+
+def entry_none_guards(F):
+    """every explicit test in Block::entry_at that compares a position with the payload length and sends one side
+    to `None`.  A well-formed entry starting at s occupies [s, s+n1+n2+k+v) with n1, n2 >= 1, k, v >= 0 and ends at or
+    before payload.len(); a test `X >= len => None` can only reject malformed data iff X < end for every such
+    entry (`X > len` iff X <= end).  X = s (the end-of-block test) and X = s+n1 qualify; X = s+n1+n2 or X = s+n1+n2+k
+    do not: an entry with an empty key / value that ends the payload would be dropped.
+    Returns [(ok, description, site)]."""
+    b = F.body(A("block_entry_at"))
+    sym, dec = _entry_syms(b)
+    if sym is None:
+        return [(False, "the two length decodes of entry_at were not found", None)]
+    somes = [e.x.get("site") for e in flat_alts(b.expr_at_return()) if e.k == "agg" and e.x.get("variant") == "Some"]
+    some_bbs = {x.bb for x in somes if x is not None}
+    out = []
+
+    def is_len(e):
+        return is_call(e, "::len") and is_call(e.strip().a[0], "Block::payload")
+
+    def judge(X, strict, where, site):
+        """None is taken when X >= len (strict=False) or X > len (strict=True)"""
+        f = linform(X, sym)
+        if f is None:
+            out.append((False, f"{where}: position `{X.show()[:60]}` is not a linear form of the entry's fields", site))
+            return
+        g = dict(f)
+        # X - end (+1 when not strict) must be <= 0 for all n1, n2 >= 1 and k, v >= 0
+        for nm in ("s", "n1", "n2", "k", "v"):
+            g[nm] = g.get(nm, 0) - 1
+        g[1] = g.get(1, 0) + (0 if strict else 1)
+        ok = g.get("s", 0) == 0 and all(g.get(nm, 0) <= 0 for nm in ("n1", "n2", "k", "v")) and not (set(g) - {"s", "n1", "n2", "k", "v", 1})
+        worst = g.get("n1", 0) + g.get("n2", 0) + g.get(1, 0)
+        ok = ok and worst <= 0
+        out.append((ok, f"{where}: `{lin_str(f)} {'>' if strict else '>='} payload.len()` gives None" + ("" if ok else " — true for a well-formed entry that ends the payload with an empty key / value"), site))
+
+    for site, st in b.sites():
+        if site.i is None or st["s"] != "assign" or st["rv"]["rv"] != "bin" or st["rv"]["op"] not in ("Ge", "Gt", "Le", "Lt", "Eq", "Ne"):
+            continue
+        e = b._expr_of_def((site, "assign", st["rv"]))
+        x, y = e.a
+        op = e.x["op"]
+        if is_len(x) and not is_len(y):
+            x, y = y, x
+            op = {"Ge": "Le", "Gt": "Lt", "Le": "Ge", "Lt": "Gt"}.get(op, op)
+        if not is_len(y):
+            continue
+        ed = bool_edges(b, value_site=site)
+        if ed is None:
+            continue
+        sw, t_t, f_t = ed
+        reach_t = some_bbs & (set(b.reachable_from(t_t)) | {t_t})
+        reach_f = some_bbs & (set(b.reachable_from(f_t)) | {f_t})
+        if reach_t and reach_f:
+            continue      # not a guard of None
+        # the relation that holds on the None side, as `x REL len`
+        rel = op if not reach_t else {"Ge": "Lt", "Gt": "Le", "Le": "Gt", "Lt": "Ge", "Eq": "Ne", "Ne": "Eq"}[op]
+        if rel in ("Ge", "Eq"):
+            judge(x, False, "comparison", site)
+        elif rel == "Gt":
+            judge(x, True, "comparison", site)
+        else:
+            out.append((False, f"comparison: `{x.show()[:50]} {rel} payload.len()` gives None (entries inside the payload are rejected)", site))
+    for s_, c, t in b.calls():
+        if not callee_name(c).endswith("::is_empty"):
+            continue
+        ps = _payload_slice(b.arg_exprs(s_)[0])
+        if ps is None or not (ps[0].x.get("adt") or "").endswith("RangeFrom"):
+            continue
+        ed = bool_edges(b, value_site=s_)
+        if ed is None:
+            continue
+        sw, t_t, f_t = ed
+        reach_t = some_bbs & (set(b.reachable_from(t_t)) | {t_t})
+        if not reach_t:
+            judge(ps[0].a[0], False, "is_empty(payload[X..])", s_)
     return out
 
 
